@@ -816,7 +816,10 @@ fn expand_set_assertion(value_expr: &TokenStream, pattern: &PatternSet) -> Token
 
     quote! {
         {
-            let __set_coll: ::std::vec::Vec<_> = (&(#value_expr)).into_iter().collect();
+            // Bind the source first: a `let` of a reference extends the lifetime of a
+            // temporary (e.g. a method result returned by value) to the whole block.
+            let __set_src = &(#value_expr);
+            let __set_coll: ::std::vec::Vec<_> = __set_src.into_iter().collect();
             #(#pred_defs)*
             let __set_preds: &[&dyn ::std::ops::Fn(usize) -> bool] = &[#(&#pred_names),*];
             ::assert_struct::__macro_support::set_match(
